@@ -14,7 +14,8 @@ ENGINE_TEXT = {
                 "against the language of the writer's line templates by subset construction over a partition of all Unicode code points"),
     "looprule": ("vf/looprule.py", "Hoare loop rule on the real source: a function is cut at a top-level loop from its current AST, prefix / body / suffix are "
                  "compiled unchanged and executed by CPython on objects of symbolic size; initialisation, preservation and exit premises of the stated "
-                 "invariant are SMT obligations; pieces cross-checked against the function on concrete inputs every run"),
+                 "invariant are SMT obligations; pieces cross-checked against the function on concrete inputs every run. For loops nested in with / try blocks (C17) the rule is "
+                 "applied in place: the module's `range` is a stub whose iterator installs the invariant state, runs one generic iteration and installs the exit state"),
     "rtc": ("props/", "run-time contracts on the real functions (bounded stand-in only, never counted as discharged)"),
     "smt": ("vf/smt.py", "z3 5.1 python API primary, cvc5 1.4 on the same SMT-LIB text for unknowns and in the thorough tier"),
     "lean": ("vf/lean.py", "Lean 4.33 + Mathlib: lemmas/FiniteSums.lean (sum rules the normaliser uses), lemmas/Hill.lean (Reuss <= Hill <= Voigt), lemmas/Counting.lean (pigeonhole facts of the loop rule)"),
